@@ -11,8 +11,8 @@ import (
 func init() {
 	register(&Property{
 		Meta: PropMeta{
-			ID:    "C13",
-			Level: "other",
+			ID:          "C13",
+			Level:       "other",
 			Explanation: "Structural necessary conditions of 'an INI entry means the same as the corresponding flag', decided on the SSA of /repo for all paths: (FUNNEL) IniParser.parse applies values only through Option.Set / Option.setDefault — the same conversion path as the command line — and the value handed over is the entry's value, nil exactly for an argument-less option with an empty value, or for maps key + \":\" + unquoted value split at the first colon only; (PRIORITY) optionByName assigns priority 4 to the caller's matcher, 3 to the field name, 2 to the namespaced long name and 1 to the short name, each assignment guarded by its own name test and by `current priority < that constant`, and the matcher the INI reader passes compares the lower-cased ini-name tag with the lower-cased name; (SECTION) the empty section name addresses every group of the parser's own group tree, other names go through Command.groupByName, which tries the command's own groups (case-insensitive description match via Group.Find) and then recurses into *subcommands* — the same function on the subcommand, with the prefix `Name.` stripped — or returns the subcommand's group on an exact name; (NOINI) an option with a non-empty no-ini tag is unresolvable; (ACCUMULATE) clearReferenceBeforeSet is armed once before the entry loops and no branch inside them reads Option.preventDefault.",
 			NotDecided:  "equality of the resulting value with the command-line outcome (both go through the same Set/convert, which is what is checked).",
 			Trusted:     []string{"go/ssa lowering", "go/types", "strings.ToLower / HasPrefix contracts"},
@@ -270,55 +270,19 @@ func runC13(c *Ctx, r *Report, tier string) {
 	}
 	r.Check(okFind && lower, "SECTION", c.fname(gf), "group description matched case-insensitively", c.pos(gf.Pos()), "ToLower(description) == ToLower(name)", "Group.Find does not lower-case both sides")
 
-	// NOINI
-	okNo, hasTest := false, false
-	for _, b := range c.blocks(ip) {
-		iff, ok := b.Instrs[len(b.Instrs)-1].(*ssa.If)
-		if !ok {
-			continue
-		}
-		l := c.cond(iff.Cond)
-		if !(strings.HasPrefix(l.Term, "nonempty(call:(*multiTag).Get(&Option.tag(") && strings.Contains(l.Term, `"no-ini")`)) {
-			continue
-		}
-		hasTest = true
-		si := 0
-		if !l.Pos {
-			si = 1
-		}
-		tgt := b.Succs[si] // taken when the tag is non-empty
-		// the option variable becomes nil on this edge: tgt (or b itself) feeds a nil edge of an *Option phi
-		for _, cand := range []*ssa.BasicBlock{tgt, b} {
-			for _, s := range cand.Succs {
-				for _, in := range s.Instrs {
-					ph, isPhi := in.(*ssa.Phi)
-					if !isPhi {
-						break
-					}
-					if typeName(ph.Type()) != "Option" {
-						continue
-					}
-					for i, e := range ph.Edges {
-						if s.Preds[i] == cand && isConstNil(e) && (cand == tgt || s == tgt) {
-							okNo = true
-						}
-					}
-				}
-			}
-			for _, in := range tgt.Instrs {
-				ph, isPhi := in.(*ssa.Phi)
-				if !isPhi {
-					break
-				}
-				for i, e := range ph.Edges {
-					if tgt.Preds[i] == b && isConstNil(e) && typeName(ph.Type()) == "Option" {
-						okNo = true
-					}
-				}
-			}
-		}
+	// NOINI: every path that hands a value to an option passes the edge "its no-ini tag is empty"
+	noIniEmpty := func(l Lit) bool {
+		return !l.Pos && strings.HasPrefix(l.Term, "nonempty(call:(*multiTag).Get(&Option.tag(") && strings.HasSuffix(l.Term, `"no-ini"))`)
 	}
-	r.Check(hasTest && okNo, "NOINI", in_, "no-ini options cannot be set from INI", c.pos(ip.Pos()), "on the edge where the no-ini tag is non-empty the resolved option becomes nil (treated as unknown)", fmt.Sprintf("no-ini test present=%v, nils the option=%v", hasTest, okNo))
+	nNo := 0
+	for _, in := range c.instrs(ip, c.isCallTo("(*Option).Set", "(*Option).setDefault")) {
+		nNo++
+		path, ok := c.Requires(ip, isInstr(in), noIniEmpty, nil)
+		r.Check(ok, "NOINI", in_, "no-ini options cannot be set from INI", c.ipos(in), "REQ(no-ini tag of the resolved option is empty): an option carrying the tag is treated as unknown", "an option tagged no-ini can be set from an INI entry: "+pathStr(path))
+	}
+	if nNo == 0 {
+		r.Fail("NOINI", in_, "no-ini options cannot be set from INI", c.pos(ip.Pos()), "no Set/setDefault call found in IniParser.parse")
+	}
 
 	// ACCUMULATE
 	crbs := c.Field("Option", "clearReferenceBeforeSet")
